@@ -264,6 +264,31 @@ impl Rng {
     }
 }
 
+static PAUSE_NS: AtomicU64 = AtomicU64::new(0);
+
+/// SIGUSR1 handler of the preemption injector: the interrupted thread sleeps for PAUSE_NS (nanosleep is
+/// async-signal-safe), i.e. it is "descheduled" at whatever instruction the signal happened to hit
+extern "C" fn pause_handler(_sig: libc::c_int) {
+    let ns = PAUSE_NS.load(Ordering::Relaxed);
+    if ns > 0 {
+        let ts = libc::timespec { tv_sec: 0, tv_nsec: ns as _ };
+        unsafe {
+            libc::nanosleep(&ts, std::ptr::null_mut());
+        }
+    }
+}
+
+pub fn install_pause_handler(pause_us: u64) {
+    PAUSE_NS.store(pause_us * 1000, Ordering::SeqCst);
+    unsafe {
+        let mut sa: libc::sigaction = std::mem::zeroed();
+        sa.sa_sigaction = pause_handler as usize;
+        sa.sa_flags = libc::SA_RESTART;
+        libc::sigemptyset(&mut sa.sa_mask);
+        libc::sigaction(libc::SIGUSR1, &sa, std::ptr::null_mut());
+    }
+}
+
 /// `stress writers=<n> readers=<n> mergers=<n> ops=<per thread> keys=<n> seed=<n> big=<percent>`
 /// returns history lines `tid kind key arg inv_ns resp_ns result`, joined by `;`
 pub fn stress(h: &Handle, kv: &HashMap<String, u64>, hang_ms: u64) -> String {
@@ -284,7 +309,20 @@ pub fn stress(h: &Handle, kv: &HashMap<String, u64>, hang_ms: u64) -> String {
     let every_ns = (*kv.get("every_us").unwrap_or(&100) as u128) * 1000;
     // with spin=1 a writer keeps writing after its `ops` operations until `minms` ms have passed (at most 20 x ops)
     let minms = *kv.get("minms").unwrap_or(&0) as u128;
+    // a spinning reader waits this long between two gets (the index's shard lock is a reader-preferring spin lock:
+    // readers that never pause starve the writer)
+    let rgap_ns = *kv.get("rgap_ns").unwrap_or(&0) as u128;
     let writers_left = Arc::new(AtomicU64::new(writers));
+    // preempt_us=<p> pause_us=<q> target=w|r|all: a separate thread interrupts the chosen worker threads about every p
+    // microseconds at whatever instruction they are executing and makes them sleep q microseconds there, as a loaded
+    // machine would; windows of a few instructions between two steps of an operation are held open that way
+    let preempt_us = *kv.get("preempt_us").unwrap_or(&0);
+    let pause_us = *kv.get("pause_us").unwrap_or(&30);
+    let target = *kv.get("target").unwrap_or(&0); // 0 = writers, 1 = readers, 2 = all
+    let victims: Arc<Mutex<Vec<libc::pthread_t>>> = Arc::new(Mutex::new(vec![]));
+    if preempt_us > 0 {
+        install_pause_handler(pause_us);
+    }
     let t0 = Instant::now();
     let hist: Arc<Mutex<Vec<String>>> = Arc::new(Mutex::new(vec![]));
     let progress = Arc::new(AtomicU64::new(0));
@@ -300,7 +338,11 @@ pub fn stress(h: &Handle, kv: &HashMap<String, u64>, hang_ms: u64) -> String {
         let is_writer = tid < writers;
         let start = start.clone();
         let writers_left = writers_left.clone();
+        let victims = victims.clone();
         joins.push(std::thread::spawn(move || {
+            if preempt_us > 0 && (target == 2 || (target == 0) == is_writer) {
+                victims.lock().unwrap().push(unsafe { libc::pthread_self() });
+            }
             start.wait();
             let mut rng = Rng(seed.wrapping_mul(0x9E3779B97F4A7C15) ^ (tid + 1).wrapping_mul(0xD1B54A32D192ED03) | 1);
             // the loop does as little as possible besides the store call (keys are made up front, results are
@@ -351,6 +393,11 @@ pub fn stress(h: &Handle, kv: &HashMap<String, u64>, hang_ms: u64) -> String {
                 let resp = t0.elapsed().as_nanos();
                 seq += 1;
                 if !is_writer && spin {
+                    if rgap_ns > 0 {
+                        while t0.elapsed().as_nanos() < resp + rgap_ns {
+                            std::hint::spin_loop();
+                        }
+                    }
                     let keep = match &res {
                         R::Val(Ok(v)) => {
                             let changed = last_rec.as_ref() != Some(v);
@@ -374,6 +421,11 @@ pub fn stress(h: &Handle, kv: &HashMap<String, u64>, hang_ms: u64) -> String {
                 }
                 raw.push((kind, ki, arg, inv, resp, res));
                 progress.fetch_add(1, Ordering::Relaxed);
+            }
+            if preempt_us > 0 {
+                // no signal may be sent to a thread that has ended
+                let me = unsafe { libc::pthread_self() };
+                victims.lock().unwrap().retain(|t| *t != me);
             }
             if is_writer {
                 writers_left.fetch_sub(1, Ordering::SeqCst);
@@ -399,6 +451,36 @@ pub fn stress(h: &Handle, kv: &HashMap<String, u64>, hang_ms: u64) -> String {
             hist.lock().unwrap().extend(local);
         }));
     }
+    let inj_stop = Arc::new(AtomicU64::new(0));
+    let injector = if preempt_us > 0 {
+        let victims = victims.clone();
+        let inj_stop = inj_stop.clone();
+        Some(std::thread::spawn(move || {
+            let mut rng = Rng(seed ^ 0xA076_1D64_78BD_642F | 1);
+            let mut n = 0u64;
+            while inj_stop.load(Ordering::SeqCst) == 0 {
+                {
+                    // under the lock: a thread on the list has not passed its deregistration, so it is alive
+                    let v = victims.lock().unwrap();
+                    if !v.is_empty() {
+                        let t = v[(rng.next() % v.len() as u64) as usize];
+                        unsafe {
+                            libc::pthread_kill(t, libc::SIGUSR1);
+                        }
+                        n += 1;
+                    }
+                }
+                let wait = preempt_us / 2 + rng.next() % preempt_us.max(1);
+                let until = Instant::now() + Duration::from_micros(wait);
+                while Instant::now() < until {
+                    std::hint::spin_loop();
+                }
+            }
+            n
+        }))
+    } else {
+        None
+    };
     let mut merge_joins = vec![];
     for _ in 0..mergers {
         let h = h.clone();
@@ -442,6 +524,12 @@ pub fn stress(h: &Handle, kv: &HashMap<String, u64>, hang_ms: u64) -> String {
     }
     for j in joins {
         let _ = j.join();
+    }
+    inj_stop.store(1, Ordering::SeqCst);
+    if let Some(j) = injector {
+        if let Ok(n) = j.join() {
+            hist.lock().unwrap().push(format!("i preemptions - - 0 0 {}", n));
+        }
     }
     for j in merge_joins {
         let _ = j.join();
